@@ -81,10 +81,24 @@ def is_str_leaf(node):
     return node[0] == 'lit' and node[2]
 
 
+class TaggedStr(str):
+    """A str subclass whose str()/repr()/format() differ from its value (like a `class X(str, Enum)` member): it IS the
+    string it was built from, and must be treated as such wherever a str is accepted."""
+
+    def __str__(self):
+        return 'TaggedStr.MEMBER'
+
+    def __repr__(self):
+        return '<TaggedStr>'
+
+    def __format__(self, spec):
+        return 'TaggedStr.MEMBER'
+
+
 def arg(node):
     """Value for an argument position that accepts `Pregex | str`."""
     if is_str_leaf(node):
-        return node[1]
+        return TaggedStr(node[1]) if node[2] == 'sub' else node[1]
     return build(node)
 
 
@@ -95,7 +109,7 @@ def build(node):
     if k == 'ref':          # a live, shared object (C20 builds expressions out of previously built objects)
         return REFS[node[1]]
     if k == 'lit':
-        return A['Pregex'](node[1])
+        return A['Pregex'](TaggedStr(node[1]) if node[2] == 'sub' else node[1])
     if k == 'cls':
         return cs.build(node[1])
     if k == 'tok':
@@ -215,7 +229,8 @@ def build(node):
         if node[3] is None:
             return A['Conditional'](node[1], arg(node[2]))
         return A['Conditional'](node[1], arg(node[2]), arg(node[3]))
-    raise ValueError(f'unknown node {node!r}')
+    from pbt.common import HarnessError
+    raise HarnessError(f'unknown node {node!r}')
 
 
 # ---------------------------------------------------------------------------------------------
@@ -223,14 +238,14 @@ def build(node):
 # ---------------------------------------------------------------------------------------------
 def render_arg(node):
     if is_str_leaf(node):
-        return repr(node[1])
+        return f'TaggedStr({node[1]!r})' if node[2] == 'sub' else repr(node[1])
     return render(node)
 
 
 def render(node):
     k = node[0]
     if k == 'lit':
-        return f'Pregex({node[1]!r})'
+        return f'Pregex(TaggedStr({node[1]!r}))' if node[2] == 'sub' else f'Pregex({node[1]!r})'
     if k == 'cls':
         return cs.render(node[1])
     if k == 'tok':
@@ -868,7 +883,7 @@ def witnesses(node, rng, k=3):
     if t in ('grp', 'cap'):
         ws = witnesses(node[2], rng, k)
         if t == 'grp' and node[3]:
-            ws = ws + [w.swapcase() for w in ws]
+            ws = list(dict.fromkeys(ws + [w.swapcase() for w in ws]))[:2 * k + 2]
         return ws
     if t == 'anchor':
         return witnesses(node[3], rng, k)
@@ -1041,7 +1056,7 @@ def simple_class_strategy(features):
 
 def leaf_strategy(features):
     from hypothesis import strategies as st
-    lit = st.tuples(literal_strategy(features, 1), st.booleans() if 'strarg' in features else st.just(False)).map(
+    lit = st.tuples(literal_strategy(features, 1), st.sampled_from([True, True, False, False, 'sub']) if 'strarg' in features else st.just(False)).map(
         lambda t: ['lit', t[0], t[1]])
     opts = [lit, lit, lit]
     if 'cls' in features:
@@ -1195,7 +1210,8 @@ def with_reference(tree, refspec, leaf_mode='own'):
     if refspec.get('tail') is not None and refspec.get('tail_mode') == 'enclose':
         parts = [tree, ['enc', 'class' if refspec.get('sp') != 'method' else 'method', node, [refspec['tail']]]]
         return uniquify_names(['cat', refspec.get('sp', 'class'), parts])
-    parts = [tree, node] + ([refspec['tail']] if refspec.get('tail') is not None else [])
+    pre = [['lit', refspec['pre_lit'], True]] if refspec.get('pre_lit') else []
+    parts = [tree] + pre + [node] + ([refspec['tail']] if refspec.get('tail') is not None else [])
     return uniquify_names(['cat', refspec.get('sp', 'class'), parts])
 
 
@@ -1208,6 +1224,7 @@ def refspec_strategy(features=ALL_FEATURES):
         'then': small, 'else': st.one_of(st.none(), small), 'tail': st.one_of(st.none(), small, digits, digits),
         'sp': st.sampled_from(['class', 'method', 'op', 'method_left']),
         'tail_mode': st.sampled_from(['concat', 'concat', 'concat', 'enclose']),
+        'pre_lit': st.sampled_from([None, None, None, '\\', 'a\\', '\\\\', 'x', '1']),
         'wrap': st.one_of(st.none(), st.none(), st.tuples(st.sampled_from(['cap']), st.sampled_from(['class', 'method']),
                                                            st.one_of(st.none(), st.sampled_from(['w1', 'w2']))).map(list),
                           st.tuples(st.sampled_from(['grp', 'opt', 'rep']), st.sampled_from(['class', 'method']), st.booleans()).map(list))}))
@@ -1252,6 +1269,54 @@ def wide_tree_strategy(features=ALL_FEATURES, leaf=None, arities=WIDE_ARITIES):
         st.tuples(sp2, level1, leaf).map(lambda t: ['enc', t[0], t[1], [t[2]]]),
     )
     return level2.map(uniquify_names)
+
+
+DEEP_WRAPPERS = ['grp', 'grp_ci', 'cap', 'capn', 'cat_l', 'cat_r', 'alt_r', 'enc', 'opt', 'x1', 'x2']
+
+
+def deep_tree_strategy(features=ALL_FEATURES, leaf=None, depths=(12, 20, 33, 64, 65, 100)):
+    """Depth instead of breadth: a leaf under 12-100 unary wrappers (groups, captures, concatenation / alternation with a
+    literal on one side, enclose, optional, fixed repetition), the wrapper sequence being a drawn cycle of 1-4 kinds.
+    At most four quantifier levels (nested repetition makes re itself exponential; that would only cost time)."""
+    from hypothesis import strategies as st
+    leaf = leaf if leaf is not None else leaf_strategy(set(features))
+    sp2 = st.sampled_from(['class', 'method'])
+
+    def build_deep(t):
+        x, cycle, depth, sp, word = t
+        nq = 0
+        for i in range(depth):
+            w = cycle[i % len(cycle)]
+            if w in ('opt', 'x1', 'x2'):
+                nq += 1
+                if nq > 4:
+                    w = 'grp'
+            lit = ['lit', word + str(i % 7), bool(i % 2)]
+            if w == 'grp':
+                x = ['grp', sp, x, False]
+            elif w == 'grp_ci':
+                x = ['grp', sp, x, True]
+            elif w == 'cap':
+                x = ['cap', sp, x, None]
+            elif w == 'capn':
+                x = ['cap', sp, x, f'd{i}']
+            elif w == 'cat_l':
+                x = ['cat', sp, [lit, x]] if sp == 'class' else ['cat', 'method_left', [lit, x]]
+            elif w == 'cat_r':
+                x = ['cat', sp, [x, lit]]
+            elif w == 'alt_r':
+                x = ['alt', sp, [x, lit]]
+            elif w == 'enc':
+                x = ['enc', sp, x, [lit]]
+            elif w == 'opt':
+                x = ['q', 'opt', sp, x, 0, None, bool(i % 2)]
+            elif w == 'x1':
+                x = ['q', 'exactly', sp, x, 1, None, True]
+            else:
+                x = ['q', 'exactly', sp, x, 2, None, True]
+        return x
+    return st.tuples(leaf, st.lists(st.sampled_from(DEEP_WRAPPERS), min_size=1, max_size=4), st.sampled_from(list(depths)), sp2,
+                     st.sampled_from(['w', '(', '|', '\\', '1', ')'])).map(build_deep)
 
 
 def many_captures_case(n, ref, tail_digit, sp='class'):
@@ -1318,6 +1383,29 @@ def bracket_heavy_leaf(features=ALL_FEATURES):
     bfrm = st.lists(ch, min_size=1, max_size=2, unique=True).map(lambda xs: ['cls', ['butfrom', [['c', x] for x in xs]]])
     named = st.sampled_from(['AnyLetter', 'AnyDigit', 'AnyButDigit', 'AnyPunctuation', 'AnyUppercaseLetter']).map(lambda n: ['cls', ['named', n]])
     return st.one_of(frm, frm, bfrm, named, named, leaf_strategy(features))
+
+
+def hostile_tree(max_leaves=4):
+    """Small Concat/Either trees whose leaves are what a text-based reading of the emitted pattern most easily
+    misreads: literal backslashes (token or string) right in front of bracket classes, classes listing parentheses /
+    brackets / '|', and literals that are single metacharacters."""
+    from hypothesis import strategies as st
+    bs = st.sampled_from([['tok', 'Backslash'], ['lit', '\\', True], ['lit', '\\', False], ['lit', 'a\\', True], ['lit', '\\\\', True]])
+    meta = st.sampled_from(list('()[]|{}$^.*+?-')).map(lambda c: ['lit', c, True])
+    plain = st.sampled_from(['x', 'ab', '1']).map(lambda s: ['lit', s, True])
+    leaf = st.one_of(bs, bs, bracket_heavy_leaf(['meta']), bracket_heavy_leaf(['meta']), meta, plain)
+
+    def extend(child):
+        xs = st.lists(child, min_size=2, max_size=3)
+        sp = st.sampled_from(['class', 'method'])
+        return st.one_of(st.tuples(st.sampled_from(['class', 'method', 'op']), xs).map(lambda t: ['cat', t[0], t[1]]),
+                         st.tuples(st.sampled_from(['class', 'method', 'op']), xs).map(lambda t: ['cat', t[0], t[1]]),
+                         st.tuples(sp, xs).map(lambda t: ['alt', t[0], t[1]]),
+                         st.tuples(sp, xs).map(lambda t: ['alt', t[0], t[1]]),
+                         st.tuples(st.sampled_from(['opt', 'star', 'plus']), sp, child, st.booleans()).map(lambda t: ['q', t[0], t[1], t[2], 0, None, t[3]]),
+                         st.tuples(sp, child, st.booleans()).map(lambda t: ['grp', t[0], t[1], t[2]]),
+                         st.tuples(sp, child).map(lambda t: ['cap', t[0], t[1], None]))
+    return st.recursive(leaf, extend, max_leaves=max_leaves)
 
 
 def bounded_texts(tree, txts):
